@@ -196,6 +196,17 @@ CHECKS["C24"] = (
     "DESIGN.md §6 C24",
 )
 
+CHECKS["C28"] = (
+    "Lean 4 theorems over a transcription of to_tuple / structural_simplify / as_record: for every tree the record lists exactly the "
+    "tree's tokens (type, text) in file order, in both layouts (dict when child keys are distinct, list otherwise or with positions). "
+    "The model is corresponded with as_record on real trees for six option combinations; the CLI `parse` output in json, yaml and human "
+    "form (with/without --include-meta) and sqlfluff.parse are parsed back and checked: tokens in order, texts concatenate to the rendered "
+    "SQL, types nest as in the tree.",
+    "Lean 4 proof (fuel-indexed induction over nested records) + differential correspondence + output re-parsing",
+    "Lean kernel; standard axioms; json/yaml dumpers and the human formatter are external (their output is parsed back)",
+    "DESIGN.md §6 C28",
+)
+
 NOT_YET = {}
 
 
